@@ -22,6 +22,8 @@ THOROUGH = QUICK + [
 
 
 def run(ctx):
+    if getattr(ctx, "replay_path", None):
+        return pc.replay(ctx, "C01", "r")
     n = 400000 if ctx.thorough else 40000
     rnd = [("rnd-plain", n, ["req=0:3115b50900", "buslost=1"]), ("rnd-enh", n, ["enhanced=1", "req=0:3115b50900", "buslost=1"])]
     pc.run_configs(ctx, "C01", "r", THOROUGH if ctx.thorough else QUICK, random_runs=rnd,
